@@ -203,3 +203,19 @@ def run(repo, rep, tier):  # noqa: F811 -- round-5 shape rules appended to the r
 _ADDR5B = " R18.8: ValueSpec(...) is constructed only at the five root sites (field pack / unpack, codec encode / decode, class-level discriminator); nested positions derive their spec with spec.copy(...), which carries no_copy_collections and the other options down. R18.9: the input annotation of a user's deserialize callable is looked up by position 0, never by parameter name."
 EXPLANATION += _ADDR5B
 LEVEL_TEXT += _ADDR5B
+
+
+_run_before_r6b = run
+
+
+def run(repo, rep, tier):  # noqa: F811 -- round-6 remedies (core/round6.py)
+    _run_before_r6b(repo, rep, tier)
+    if getattr(rep, "borrowed", False):
+        return
+    from ..core import round6 as _r6b
+    _r6b.default_dialect_is_default(repo, rep, "R13.13")
+
+
+_ADDR6C = '  Borrowed: R13.13.'
+EXPLANATION += _ADDR6C
+LEVEL_TEXT += _ADDR6C
